@@ -40,7 +40,7 @@ def chatStateStr (w : ChatWorld) : String :=
   let cids := (w.chats.map (·.id)).foldr insertNat []
   let chats := cids.map fun cid =>
     match w.chat cid with
-    | some ch => s!"{cid}/{toHex ch.subject}/" ++ ",".intercalate (ch.members.map fun m => toString m.1)
+    | some ch => s!"{cid}/{toHex ch.subject}/" ++ ",".intercalate ((w.members cid).map fun m => toString m.1)
     | none => ""
   s!"ids={ids} chats=" ++ ";".intercalate chats
 
